@@ -61,6 +61,7 @@ class Target:
         self.note = note
         self.setup = None
         self.ensures = []
+        self.requires = []
         self.raises = []  # (exc class, [Clause])
         self.models = {}
         self.inline = set()
@@ -78,6 +79,11 @@ class Target:
     # decorators
     def inputs(self, fn):
         self.setup = fn
+        return fn
+
+    def require(self, fn):
+        """precondition (code- or domain-derived); assumed at entry, reported in the evidence"""
+        self.requires.append(Clause(fn.__name__, fn))
         return fn
 
     def ensure(self, fn=None, *, name=None, props=None, known=None):
@@ -274,6 +280,8 @@ def verify(t: Target, seed=0, prefixes=None, budget=None):
                 a = node.args
                 names = [x.arg for x in a.posonlyargs + a.args]
                 args = [env[n] for n in names if n in env]
+            for rq in t.requires:
+                p.assume(eval_clause(I, rq.fn, env))
             old = snapshot(env)
             env['old'] = old
             env['ghost'] = p.ghost
@@ -320,10 +328,13 @@ def verify(t: Target, seed=0, prefixes=None, budget=None):
         worklist.extend(p.alternatives)
         res['paths'] += 1
         # cover: the path condition is satisfiable
-        st, be, m, dt = check_unsat(p.pc, 5000)
-        res['solver_s'] += dt
-        if st == 'unsat':
-            continue  # unreachable path (pruning was inconclusive earlier)
+        if p.last_model is None:
+            t1 = time.time()
+            p.solver.set('timeout', 3000)
+            st = p.solver.check()
+            res['solver_s'] += time.time() - t1
+            if st == z3.unsat:
+                continue  # unreachable path (pruning was inconclusive earlier)
         res['covers'] += 1
         sig = path_sig(p)
         for ob in p.obligs:
@@ -334,6 +345,7 @@ def verify(t: Target, seed=0, prefixes=None, budget=None):
             res['by_backend'][be] = res['by_backend'].get(be, 0) + 1
             if st == 'sat':
                 model = refine_bytes_model(p, ob, model, t.timeout_ms)
+                model = refine_uf_model(p, ob, model, t.timeout_ms)
                 rec['witness'] = replay(t, ob, model, mod)
                 res['violations'].append(rec)
             elif st == 'unknown':
@@ -395,6 +407,63 @@ def match_raises(t, ecls):
             if best is None or issubclass(c, best[0]):
                 best = (c, clauses)
     return best
+
+
+NATIVE_UFS = {
+    'py_lower': lambda s: s.lower(), 'py_upper': lambda s: s.upper(), 'py_replace': lambda s, a, b: s.replace(a, b),
+    'py_strip': lambda s, c: s.strip(c), 'py_lstrip': lambda s, c: s.lstrip(c), 'py_rstrip': lambda s, c: s.rstrip(c),
+}
+
+
+def _uf_apps(exprs):
+    seen = set()
+    out = []
+    stack = list(exprs)
+    while stack:
+        e = stack.pop()
+        if not z3.is_expr(e) or e.get_id() in seen:
+            continue
+        seen.add(e.get_id())
+        if z3.is_quantifier(e):
+            stack.append(e.body())
+            continue
+        if z3.is_app(e):
+            if e.decl().kind() == z3.Z3_OP_UNINTERPRETED and e.num_args() > 0 and e.decl().name() in NATIVE_UFS:
+                out.append(e)
+            stack.extend(e.children())
+    return out
+
+
+def refine_uf_model(p, ob, model, timeout_ms, rounds=5):
+    """Make the counter-model agree with CPython on the uninterpreted string functions (lower/replace/strip...):
+    evaluate their arguments in the model, compute the real value natively, add it as a ground fact, re-solve."""
+    if model is None:
+        return model
+    base = ob.pc + [z3.Not(ob.goal)]
+    apps = _uf_apps(base)
+    if not apps:
+        return model
+    facts = []
+    cur = model
+    for _ in range(rounds):
+        new = []
+        for a in apps:
+            try:
+                args = [z3str_to_py(cur.eval(x, model_completion=True)) for x in a.children()]
+                want = NATIVE_UFS[a.decl().name()](*args)
+                got = z3str_to_py(cur.eval(a, model_completion=True))
+            except Exception:
+                continue
+            if got != want:
+                new.append(a.decl()(*[SX.mk_str(x) for x in args]) == SX.mk_str(want))
+        if not new:
+            return cur
+        facts.extend(new)
+        st, be, m2, dt = check_unsat(base + facts, timeout_ms)
+        if st != 'sat' or m2 is None:
+            return cur if st != 'unsat' else model
+        cur = m2
+    return cur
 
 
 def snapshot(env):
